@@ -1,6 +1,6 @@
 """C17: parseCIRCexplorer (spec/Parsers.tla, CircTrace.tla), driven through the real command line."""
 import json, os, re
-from vlib import env, tlc, report, jobs, refgen
+from vlib import env, tlc, report, jobs, refgen, cvgen
 from checks.cv import tlc_cases
 from checks.c14 import tx_spec
 
@@ -61,13 +61,17 @@ def rows_for(r, chrom, genes, txs, ce3, th):
     return out
 
 
-def check_c17(tier):
-    rep = report.Report('C17', tier)
+def check_c17(tier, rep=None, only=None):
+    """only: None (C17: the parser clauses), 'circ_peptides_complete' (reported by C01) or 'circ_peptides_sound' (by C02)"""
+    rep = rep or report.Report('C17', tier)
+    rule_before = rep.cov['rule']
     rep.cov['rule'] = ("random annotations (both strands, 2-4 exons, genes wider than transcripts) x every contiguous exon subset "
                        "(circRNA), every intron with start/end perturbations (ciRNA), non-exon blocks, read numbers / fpb / score around "
                        "the thresholds, CIRCexplorer2 and 3 column layouts, tolerance ranges; the real command line parseCIRCexplorer "
                        "is run and the emitted GVF re-read; TLC checks fragments, circular sequence, ID, skipping rules; non-trivial = "
                        "record emitted")
+    if only:
+        rep.cov['rule'] = rule_before + f' | circRNA backbones: callVariant on the GVFs of the C17 campaign, clause {only} of CircTrace (circle read as four copies, every ATG of the first copy)'
     work = env.scratch('c17_')
     r = env.rng('c17')
     n = 24 if tier == 'quick' else 500
@@ -107,8 +111,32 @@ def check_c17(tier):
             rep.machinery(f"worker failed: {rr.get('error')} {rr.get('stderr', '')[-300:]}"); return rep.finish()
         for j, x in enumerate(rr['results']):
             flat[k + j * nj] = x
+    # callVariant on the emitted circRNA GVFs: peptides of each circRNA (C01 / C02 on circular backbones)
+    CFG = dict(rule='trypsin', exc='', misc=1, min_len=4, max_len=22, min_mw='0.00005')
+    cvjobs = []
+    for mi, m in enumerate(meta):
+        d = os.path.dirname(jl[mi]['read_gvf'])
+        a = dict(jl[mi]['circ_seq']); a.update(cvgen.cli_cfg(CFG))
+        a.update(input_path=[jl[mi]['read_gvf']], output_path=os.path.join(d, 'cv.fasta'), max_variants_per_node=[-1],
+                 additional_variants_per_misc=[-1])
+        cvjobs.append(dict(cmd='callVariant', args=a))
+    cvres = jobs.run_jobs('run_cv_batch.py', [dict(jobs=cvjobs[k::nj]) for k in range(nj)], timeout=3000)
+    cvflat = [None] * len(cvjobs)
+    for k, rr in enumerate(cvres):
+        if rr.get('ok'):
+            for j, xx in enumerate(rr['results']):
+                cvflat[k + j * nj] = xx
     cases, info = [], []
-    for m, x in zip(meta, flat):
+    for mi, (m, x) in enumerate(zip(meta, flat)):
+        cv = cvflat[mi] if os.path.exists(jl[mi]['read_gvf']) else None
+        cv_ok = bool(cv and cv['ok'] and cv['fasta'] is not None)
+        by_id, allobs = {}, []
+        if cv_ok:
+            for h, sq in cv['fasta']:
+                allobs.append(sq)
+                for e in h.split(' '):
+                    if e.startswith(('CIRC-', 'CI-')):
+                        by_id.setdefault(e.split('|')[0], set()).add((sq, e))
         ctx = dict(gtf=m['ref'].gtf_lines(), chroms=m['ref'].chroms, argv=m['argv'], rows=[y['line'] for y in m['rows']])
         key = env.canon_hash(ctx)
         if not x['ok'] or x['out']['status'] != 'ok':
@@ -137,11 +165,18 @@ def check_c17(tier):
                 hit = cands_
             c = dict(chrom=list(chrom), gene=dict(start=g['start'], end=g['end'], strand=g['strand']), tx=tx_spec(t),
                      blocks=y['blocks'], kind=y['kind'], enough=y['enough'], startRange=list(m['sr']), endRange=list(m['er']))
+            tt = m['ref'].txs[t['id']]
+            c.update(cfg=cvgen.spec_cfg(CFG), proteome=cvgen.proteome_record(m['ref']), host=cvgen.tx_record(m['ref'], tt),
+                     cvran=False, cpeps=[], allobs=[])
             if hit:
                 rec, bsj = hit[0]
                 nrec += 1
                 c.update(outcome='record', frags=rec['frags'], seq=rec['seq'], bsj=list(bsj),
                          idOk=rec['id'] == f"CIRC-{t['id']}-{bsj[0]}:{bsj[1]}")
+                shared = sum(1 for (tx_, cid_, fr_) in emitted if cid_ == rec['id']) > 1
+                if cv_ok and not shared:
+                    # peptides whose only circRNA labels name this record alone (no further variants in these inputs)
+                    c.update(cvran=True, cpeps=[list(sq) for sq, e in sorted(by_id.get(rec['id'], ()))], allobs=[list(q) for q in allobs])
             else:
                 c.update(outcome='absent', frags=[], seq=[], bsj=[0, 0], idOk=True)
             cases.append(c); info.append((key, ctx, y, bool(hit)))
@@ -155,6 +190,8 @@ def check_c17(tier):
         if nrec != len(emitted):
             rep.violation(f"stray:{key}", f"{len(emitted) - nrec} emitted circRNA records correspond to no input row "
                           f"(ids {sorted(k[1] for k in emitted)[:6]})", ctx)
+    rep.part('circ_peptides', records_with_callvariant=sum(1 for c in cases if c['cvran']),
+             circ_labelled_peptides=sum(len(c['cpeps']) for c in cases if c['cvran']))
     verdicts = tlc_cases('CircTrace', cases, work, 'circ', rep)
     for (key, ctx, y, hit), vs in zip(info, verdicts):
         vs = [v.strip('"') for v in vs]
@@ -162,9 +199,14 @@ def check_c17(tier):
         if 'done' not in vs:
             rep.machinery(f"no verdict for circ case {key}")
         bad = sorted(v for v in vs if v != 'done')
+        # the two peptide clauses decide C01 / C02 on circular backbones and are reported by those checks
+        pep_clauses = ('circ_peptides_complete', 'circ_peptides_sound')
+        bad = [v for v in bad if (v == only if only else v not in pep_clauses)]
         if bad:
             rep.violation(f"circ:{key}:{y['key']}:{','.join(bad)}", f"parseCIRCexplorer row {y['line']} violates {bad}",
                           dict(ctx, row=y['line']))
+    if only:
+        return None
     if info:
         rep.sample(dict(argv=info[0][1]['argv'], row=info[0][2]['line'], emitted=info[0][3]))
     return rep.finish()
